@@ -392,9 +392,9 @@ impl MultiState {
     }
 
     pub(crate) fn suspend<F: FnOnce() -> R, R>(&mut self, f: F, now: Instant) -> R {
-        self.clear(now).unwrap();
+        let _ = self.clear(now);
         let ret = f();
-        self.draw(true, None, Instant::now()).unwrap();
+        let _ = self.draw(true, None, Instant::now());
         ret
     }
 
